@@ -6,6 +6,91 @@ from c10 import load_scenario
 MODES = (("local", "local"), ("", "off"))
 
 
+def binary_leg(ctx, rounds):
+    """The built `whawty-auth run` process with a saslauthd and an HTTP listener, local upgrades on: a saslauthd login with the
+    old password (its hash is upgradeable) overlaps an administrator's password change over the web API.  Whatever the order,
+    once both are answered the new password is the valid one - all listeners share one dispatcher."""
+    import base64, http.client, socket, struct, subprocess, time
+    import fsfam
+    from c04 import free_port
+    exe, drv = ctx.build_agent(), ctx.build("./cmd/storedrv")
+    root = os.path.join(ctx.scratch, "c11bin")
+    base = os.path.join(root, "base")
+    os.makedirs(base, mode=0o700)
+    cfg = os.path.join(root, "store.yaml")
+    mk = lambda default: open(cfg, "w").write((fsfam.CFG % (base, base64.b64encode(fsfam.HMAC1).decode())).replace("default: 1", "default: %d" % default))
+    mk(2)
+    users = ["user%d" % i for i in range(rounds)]
+    run = lambda *a: subprocess.run([exe, "--store", cfg] + list(a), stdout=subprocess.PIPE, stderr=subprocess.STDOUT, text=True, timeout=60)
+    if run("init", "boss", "boss password 1").returncode != 0:
+        ctx.inconclusive.append("binary leg: init failed")
+        return 0
+    for u in users:
+        run("add", u, "old password of " + u)
+    mk(1)                              # all records are argon2id now, the default is the scrypt set: upgradeable
+    sock, port = os.path.join(root, "sasl.sock"), free_port()
+    lcfg = os.path.join(root, "listener.yaml")
+    open(lcfg, "w").write("saslauthd:\n  listen:\n  - %s\nhttp:\n  listen:\n  - 127.0.0.1:%d\n" % (sock, port))
+    proc = subprocess.Popen([exe, "--store", cfg, "--do-upgrades", "local", "run", "--listener", lcfg], stdout=subprocess.DEVNULL, stderr=subprocess.DEVNULL)
+    try:
+        for _ in range(200):
+            try:
+                socket.create_connection(("127.0.0.1", port), timeout=0.2).close()
+                if os.path.exists(sock):
+                    break
+            except OSError:
+                time.sleep(0.05)
+        def post(path, body):
+            c = http.client.HTTPConnection("127.0.0.1", port, timeout=10)
+            c.request("POST", path, body=json.dumps(body), headers={"Content-Type": "application/json"})
+            r = c.getresponse(); out = r.read(); c.close()
+            return r.status, (json.loads(out) if out[:1] == b"{" else {})
+        st, out = post("/api/authenticate", {"username": "boss", "password": "boss password 1"})
+        token = out.get("session")
+        if st != 200 or not token:
+            ctx.inconclusive.append("binary leg: administrator login failed (%s)" % st)
+            return 0
+        def sasl(u, pw):
+            s = socket.socket(socket.AF_UNIX); s.settimeout(10); s.connect(sock)
+            s.sendall(b"".join(struct.pack(">H", len(x)) + x for x in (u.encode(), pw.encode(), b"imap", b"")))
+            data = b""
+            try:
+                while len(data) < 4:
+                    b = s.recv(4096)
+                    if not b:
+                        break
+                    data += b
+            except OSError:
+                pass
+            s.close()
+            return data[2:4] == b"OK"
+        lib = lambda u, pw: json.loads(subprocess.run([drv, "-cfg", cfg, "-op", "auth", "-user", u, "-pwfile", pw], stdout=subprocess.PIPE).stdout.decode().strip().splitlines()[-1])["ok"]
+        n = 0
+        for i, u in enumerate(users):
+            old, new = "old password of " + u, "new password of %s #%d" % (u, i)
+            import threading
+            res = {}
+            t1 = threading.Thread(target=lambda: res.__setitem__("sasl", sasl(u, old)))
+            t2 = threading.Thread(target=lambda: res.__setitem__("upd", post("/api/update", {"session": token, "username": u, "newpassword": new})[0]))
+            first, second = (t1, t2) if i % 3 else (t2, t1)
+            first.start(); time.sleep([0, 0.001, 0.004, 0.02][i % 4]); second.start()
+            t1.join(); t2.join()
+            time.sleep(0.25)
+            n += 1
+            if res.get("upd") != 200:
+                ctx.inconclusive.append("binary leg: update of %s answered %s" % (u, res.get("upd")))
+                continue
+            pf = os.path.join(root, "pw"); open(pf, "w").write(new)
+            po = os.path.join(root, "pwold"); open(po, "w").write(old)
+            if not lib(u, pf) or lib(u, po):
+                ctx.violation("C11", "acked-change-undone:across-listeners", "user %s: the password change over the web API was acknowledged (200), "
+                              "yet afterwards new password valid=%s, old password valid=%s (saslauthd login with the old password: %s)" % (
+                                  u, lib(u, pf), lib(u, po), res.get("sasl")))
+        return n
+    finally:
+        proc.kill(); proc.wait()
+
+
 def run(ctx):
     thorough = ctx.tier == "thorough"
     suffix = "thorough" if thorough else "quick"
@@ -47,6 +132,7 @@ def run(ctx):
     results, events = af.run_scenarios(ctx, scenarios, "c11")
     nval = af.judge(ctx, scenarios, results, events, "c11", "C11")
     cov["traces_validated_against_impl"] = nval
+    cov["binary_cross_listener_rounds"] = binary_leg(ctx, 12 if not thorough else 60)
     cov["evaluations"] = len(events)
     cov["distinct_nontrivial"] = len({json.dumps({k: e.get(k) for k in ("ev", "c", "k", "u", "p", "a", "ok")}) for e in events})
     cov["rule"] = ("each recorded run of the real dispatcher (gated model behaviours, TLC counterexamples of wrong "
